@@ -161,7 +161,7 @@ func (si *SexpArraySelector) SexpString(ps *PrintState) string {
 
 // Type returns the type of the value.
 func (si *SexpArraySelector) Type() *RegisteredType {
-	return GoStructRegistry.Lookup("arraySelector")
+	return GoStructRegistry.Builtin["arraySelector"]
 }
 
 func isArraySliceColon(sx Sexp) bool {
